@@ -883,6 +883,7 @@ func (r *replicateChannelManager) forwardMsg(targetPChannel string, msg *api.Rep
 	if handler == nil {
 		r.apiEventChan <- &api.ReplicateAPIEvent{
 			EventType: api.ReplicateError,
+			TaskID:    msg.TaskID,
 			Error:     errors.Newf("channel %s not found when forward the msg", targetPChannel),
 		}
 		log.Warn("channel not found when forward the msg",
@@ -1573,7 +1574,7 @@ func (r *replicateChannelHandler) handlePack(forward bool, pack *msgstream.MsgPa
 		}
 		info, err := r.getCollectionTargetInfo(sourceCollectionID)
 		if err != nil {
-			r.sendErrEvent(err)
+			r.sendErrEvent(taskID, err)
 			log.Warn("fail to get collection info", zap.Int64("collection_id", sourceCollectionID), zap.Error(err))
 			return nil
 		}
@@ -1712,7 +1713,7 @@ func (r *replicateChannelHandler) handlePack(forward bool, pack *msgstream.MsgPa
 			}
 		}
 		if err != nil {
-			r.sendErrEvent(err)
+			r.sendErrEvent(taskID, err)
 			log.Warn("fail to process the msg info", zap.Any("msg", msg.Type()), zap.Error(err))
 			return nil
 		}
@@ -1787,7 +1788,7 @@ func (r *replicateChannelHandler) handlePack(forward bool, pack *msgstream.MsgPa
 	generateTS, ok := GetTSManager().UnsafeGetMaxTS(tsManagerChannelKey)
 	if !ok {
 		log.Warn("not found the max ts", zap.String("channel", r.targetPChannel))
-		r.sendErrEvent(fmt.Errorf("not found the max ts"))
+		r.sendErrEvent(taskID, fmt.Errorf("not found the max ts"))
 		return nil
 	}
 	GetTSManager().UnsafeUpdatePackTS(tsManagerChannelKey, newPack.BeginTs, func(newTS uint64) (uint64, bool) {
@@ -1967,9 +1968,10 @@ func copyMsgPositions(positions []*msgpb.MsgPosition) []*msgpb.MsgPosition {
 	return newPositions
 }
 
-func (r *replicateChannelHandler) sendErrEvent(err error) {
+func (r *replicateChannelHandler) sendErrEvent(taskID string, err error) {
 	r.apiEventChan <- &api.ReplicateAPIEvent{
 		EventType: api.ReplicateError,
+		TaskID:    taskID,
 		Error:     err,
 	}
 }
